@@ -487,3 +487,49 @@ Example kalman_example :
            (qfrac 69500008990000055 7400000440000001) (qfrac 13900001798000011 7400000440000001)
            (qfrac 69500008990000055 22200001320000003) 5 = true.
 Proof. vm_compute. reflexivity. Qed.
+
+(* ---- round 6: labs glm.contrast, F-contrast covariance for a voxel-constant nvbeta (glm.py 121-129) ---------- *)
+From NV.C05 Require Import ConModel Proofs7.
+
+(* for EVERY voxel-grid shape sh (any number of axes), contrast dimension q, voxel k (C-order position in the grid)
+   and entry (b, a): the stored covariance is (c nvbeta c')[a][b] * s2[k] - the voxel's OWN residual variance.
+   (The resize / .T / reshape sequence transposes the q x q matrix; harmless for a symmetric one, next theorem.) *)
+Theorem labs_fcon_cov_each_voxel_own_s2 : forall (q : nat) (sh : list nat) (vflat s2flat : list Z) (a b k : nat),
+  length vflat = q * q -> a < q -> b < q -> k < prod sh ->
+  nth ((b * q + a) * prod sh + k) (z_fcon_cov q sh vflat s2flat) 0%Z
+  = (nth (a * q + b) vflat 0 * nth k s2flat 0)%Z.
+Proof. exact (fcon_cov_entry Z 0%Z Z.mul). Qed.
+Print Assumptions labs_fcon_cov_each_voxel_own_s2.
+
+Theorem labs_fcon_cov_symmetric_spec : forall (q : nat) (sh : list nat) (vflat s2flat : list Z) (a b k : nat),
+  length vflat = q * q ->
+  (forall i j, i < q -> j < q -> nth (i * q + j) vflat 0%Z = nth (j * q + i) vflat 0%Z) ->
+  a < q -> b < q -> k < prod sh ->
+  nth ((b * q + a) * prod sh + k) (z_fcon_cov q sh vflat s2flat) 0%Z
+  = (nth (b * q + a) vflat 0 * nth k s2flat 0)%Z.
+Proof. exact (fcon_cov_symmetric_spec Z 0%Z Z.mul). Qed.
+Print Assumptions labs_fcon_cov_symmetric_spec.
+
+(* the grouping of the voxels into a grid is irrelevant: two grids with the same number of voxels (in particular the
+   grid and its flat list) give the same C-order data *)
+Theorem labs_fcon_cov_voxel_grouping_invariant : forall (q : nat) (sh1 sh2 : list nat) (vflat s2flat : list Z),
+  length vflat = q * q -> prod sh1 = prod sh2 ->
+  z_fcon_cov q sh1 vflat s2flat = z_fcon_cov q sh2 vflat s2flat.
+Proof. exact (fcon_cov_layout_independent Z 0%Z Z.mul). Qed.
+Print Assumptions labs_fcon_cov_voxel_grouping_invariant.
+
+(* the same statement for every scalar type (no ring law is used: pure index bookkeeping) *)
+Theorem labs_fcon_cov_each_voxel_own_s2_any_scalars :
+  forall (A : Type) (zero : A) (mul : A -> A -> A) (q : nat) (sh : list nat) (vflat s2flat : list A) (a b k : nat),
+  length vflat = q * q -> a < q -> b < q -> k < prod sh ->
+  nth ((b * q + a) * prod sh + k) (fcon_cov A zero mul q sh vflat s2flat) zero
+  = mul (nth (a * q + b) vflat zero) (nth k s2flat zero).
+Proof. exact fcon_cov_entry. Qed.
+Print Assumptions labs_fcon_cov_each_voxel_own_s2_any_scalars.
+
+(* non-vacuity: q = 2, a 2 x 3 grid, non-symmetric nvbeta so that the transposition is visible:
+   c = [[1,0,1],[0,1,-1]], nvbeta = [[2,1,0],[0,3,1],[1,0,1]]  ->  c nvbeta c' = [[4,0],[-1,3]], stored transposed *)
+Example labs_fcon_variance_example :
+  z_labs_fcon_variance [[1;0;1];[0;1;-1]]%Z [[2;1;0];[0;3;1];[1;0;1]]%Z [2;3] [1;2;3;4;5;6]%Z
+  = [4;8;12;16;20;24; -1;-2;-3;-4;-5;-6; 0;0;0;0;0;0; 3;6;9;12;15;18]%Z.
+Proof. vm_compute. reflexivity. Qed.
